@@ -39,6 +39,7 @@ META["text"] += (" (R7, N) interleave_values: a kind that was not requested star
 META["text"] += " R6 also requires the helper's placement order: one-vote values first, two-vote values overwrite them, as in the core."
 META["text"] += ' R5 also: the ONEAudit estimate places one-vote and two-vote errors under independent tests (both rates can be positive).'
 META["text"] += ' R1 also: the pilot data are used as given (not clipped or rounded first). R4 also: no assumed rate is defaulted through `or`.'
+META["text"] += ' R2 also: no estimate leaves sample_size before the hypothetical population is built (no shortcut on the data in hand).'
 
 
 def run(chk):
